@@ -5,6 +5,7 @@
 //!   hsim eval   <file>                      run one replay record, print `EVAL <json>`
 //!   hsim replay <file>                      same, human readable; exit 1 if it reproduces
 
+mod afamily;
 mod build;
 mod dfamily;
 mod driver;
